@@ -36,11 +36,18 @@ REQUIRED_THEOREMS = [
     "protect_first", "lookup_before_write", "save_never_destroys", "save_keeps_files_until_plugin",
     "save_unknown_format", "save_reaches_plugin", "guarded_write_never_destroys",
     "registry_save_uses_default_allow", "project_writers_pass_allow_through",
+    # (a') the builtin yml / folder result plugins after entry
+    "result_plugins_well_placed", "save_result_changes_only_result_files", "result_files_are_children_of_result_folder",
+    "save_result_writes_only_inside_target_folder", "save_result_entry_changes_only_result_files",
+    "save_result_into_absent_folder_keeps_every_file",
     # (b) result runs
     "run_name_fresh", "run_number_increases", "other_names_unaffected", "earlier_runs_unchanged",
     "earlier_runs_loadable", "latest_after_save", "latest_accepts_run_specifier",
-    "history_numbering", "history_payloads", "history_latest", "results_lists_every_run", "run_name_fresh_counterexample",
+    "history_numbering", "history_payloads", "history_latest", "results_lists_every_run",
     "source_patterns_are_the_modelled_ones",
+    # (b) since the run-10000 fix (no bound on run numbers / history length) and for run-suffixed result names
+    "run_names_have_run_suffix", "history_only_runs", "latest_of_run_suffixed_name_spec", "history_latest_counterexample",
+    "history_latest_of_run_suffixed_name", "history_latest_of_run_suffixed_name_no_runs",
 ]
 TRUSTED = [
     "hand-written model lean/GlotaranModel/C18.lean of io_plugin_utils.protect_from_overwrite / infer_file_format, "
@@ -50,16 +57,22 @@ TRUSTED = [
     "extractor harness/props/_c18_extract.py (Python ast): effect lists of the save_* functions, call sites, regex constants; "
     "cross-checked on every run against observed file-system effects of the real save_* functions",
     "the OS file system, pathlib (resolve, mkdir, iterdir, is_file, is_dir), os.listdir, re, int(): observed only",
-    "io plugins are arbitrary effects in the model; the builtin plugins are only observed (snapshot at plugin entry, "
-    "outcome class, byte identity on refusal)",
+    "io plugins are arbitrary effects in the theorems of part (a); of the builtin plugins only save_result of the yml and the "
+    "folder plugin is modelled after entry (step lists regenerated from the source; the writers of the single files - "
+    "Path.write_text, DataFrame.to_csv, write_dict, the csv / netCDF / yml plugins behind the nested save_* calls - are "
+    "parameters that write the file they are given or raise); all other builtin plugins are only observed (snapshot at "
+    "plugin entry, outcome class, byte identity on refusal)",
 ]
 ASSUMPTIONS = [
     "paths are absolute, normalised and free of symbolic links (Path.resolve is the identity on them)",
     "result names are ASCII, contain no '/' and no newline (Python's \\d and int() also accept other Unicode digits)",
-    "fewer than 10 000 runs per result name (run numbers are formatted with four digits; beyond that the "
-    "lexicographic order of run folders and result_pattern no longer follow the numbers) — hypothesis of the run theorems",
-    "a result name that itself ends in _run_NNNN is ambiguous for the latest-lookups by API design "
-    "(get_latest_result_path strips a run specifier first) — hypothesis `hasRunSuffix name = false` of the latest theorems",
+    "a result name that itself ends in _run_<four or more digits> is ambiguous for the latest-lookups by API design "
+    "(get_latest_result_path strips a run specifier first, get_result_path takes it for a run folder): the latest theorems "
+    "carry the hypothesis `endsWithRunSpecifier name = false`; what happens for such names is stated by "
+    "latest_of_run_suffixed_name_spec / history_latest_of_run_suffixed_name(_no_runs), the failing statement by "
+    "history_latest_counterexample (replayed on the real code: known finding latest-run-suffixed-name)",
+    "dataset labels and format names are single path components (no '/'): the file names of the result plugins are one "
+    "path component in the model (a label like '../x' leaves the result folder on the real code: recorded observation)",
     "nobody else modifies the scratch tree during a call",
 ]
 RULE = (
@@ -69,12 +82,18 @@ RULE = (
     "plugin script (nothing, write, write-then-raise, NotImplementedError, clobber-bystander-then-raise, folder-style) "
     "through a scripted spy plugin, plus every registered format (and an unknown one) with the builtin plugins on "
     "real objects; protect_from_overwrite and infer_file_format alone; the four project-level writers x "
-    "{absent, file} x allow_overwrite x ignore_existing. Non-trivial = the target exists or a plugin is reached. "
+    "{absent, file} x allow_overwrite x ignore_existing; the real save_result with the builtin yml / folder plugins on real "
+    "results (one / three dataset labels, one with a dot, one with a blank) x 18 target situations (absent, given as file / "
+    "as folder / with format yml, yaml, folder, folder holding siblings / the result file / a folder in the place of "
+    "result.md, model.yml, parameter_history.csv, result.yml, a file in the place of the folder, top level) x allow_overwrite "
+    "x saving options (default, no report, minimal filter): outcome and complete tree with the set of (re)written files "
+    "against runResultPlugin over the regenerated step lists. Non-trivial = the target exists or a plugin is reached. "
     "(b) histories of optimize / foreign-file / foreign-folder operations over result names "
     "{a, ab, a_run, a_run_b, a.b, a_run_0000, a_b}; after every operation previous/create/lookups of the touched and "
     "two other names, at the end every lookup over a name universe, Project.results and a dump; "
     "non-trivial = at least two runs; distinct = distinct operation sequences. quick: seeded sample of the "
-    "exhaustive space + random longer histories + the 9999/10000 boundary + a few histories through the real "
+    "exhaustive space + random longer histories + histories across the 9999/10000 boundary (seeded run folders, "
+    "five-digit and zero-padded foreign entries) + a few histories through the real "
     "Project.optimize; thorough: every history of length <= 5 over 5 names"
 )
 
@@ -92,19 +111,25 @@ def extract_all():
         _TABLE_CACHE["fns"] = ex.extract_save_fns(core.REPO)
         _TABLE_CACHE["sites"] = ex.extract_call_sites(core.REPO)
         _TABLE_CACHE["consts"] = ex.extract_constants(core.REPO)
+        _TABLE_CACHE["plugins"] = ex.extract_result_plugins(core.REPO)
     return _TABLE_CACHE["fns"], _TABLE_CACHE["sites"], _TABLE_CACHE["consts"]
+
+
+def extract_plugins():
+    extract_all()
+    return _TABLE_CACHE["plugins"]
 
 
 def generate(ck):
     fns, sites, consts = extract_all()
-    text = ex.render(fns, sites, consts)
+    text = ex.render(fns, sites, consts, extract_plugins())
     GEN_FILE.parent.mkdir(parents=True, exist_ok=True)
     if not GEN_FILE.exists() or GEN_FILE.read_text() != text:
         GEN_FILE.write_text(text)
     files = ex.SAVE_MODULES + ["glotaran/project/project_result_registry.py", "glotaran/project/project.py",
-                               "glotaran/plugin_system/io_plugin_utils.py"]
+                               "glotaran/plugin_system/io_plugin_utils.py"] + [f for f, _ in ex.RESULT_PLUGINS]
     return [{
-        "table": "SaveFns + CallSites + Consts(C18) (lean/GlotaranModel/Generated/C18.lean)",
+        "table": "SaveFns + CallSites + Consts(C18) + ResultPlugins (lean/GlotaranModel/Generated/C18.lean)",
         "source": files + ["glotaran/**/*.py (call sites of save_*)"],
         "source_sha1": ex.source_sha1(core.REPO, files),
         "sha1": hashlib.sha1(text.encode()).hexdigest(),
@@ -557,7 +582,7 @@ def stream_builtin(ck, scratch):
     finally:
         scratch.drop(root)
     batch.diff(ck, "builtin-save-model-vs-impl")
-    ck.extra["builtin_plugin_observations"] = observations
+    ck.extra.setdefault("builtin_plugin_observations", {}).update(observations)
     ck.sample({"stream": "builtin", "save_functions": SAVE_FNS, "formats": "every registered project/data format + 'nope'",
                "states": [s[0] for s in states], "allow_overwrite": [False, True], "format_name": ["given", "inferred"]})
 
@@ -635,6 +660,166 @@ def stream_protect(ck, scratch):
         scratch.drop(root)
     batch.diff(ck, "protect-model-vs-impl")
 
+
+
+# ------------------------------------------------------------------------------------------------
+# (a') the builtin result plugins after entry: which files save_result writes
+# ------------------------------------------------------------------------------------------------
+OLD_NS = 1_000_000_000 * 1_000_000   # mtime given to every pre-existing file (so that a rewrite is visible)
+DOCUMENTED_RESULT_FILES = {"result.md", "model.yml", "scheme.yml", "parameter_history.csv", "optimization_history.csv"}
+
+
+def age_files(root: Path):
+    for dirpath, _, filenames in os.walk(root):
+        for f in filenames:
+            os.utime(Path(dirpath) / f, ns=(OLD_NS, OLD_NS))
+
+
+def result_variants():
+    from dataclasses import replace
+
+    res = real_objects()["save_result"]
+    ds = res.data["dataset_1"]
+    return [("one", res), ("three", replace(res, data={"dataset_1": ds, "d.2": ds.copy(), "x y": ds.copy()}))]
+
+
+def plugin_cases():
+    """(tag, initial tree, path components, format_name | None, result folder components)"""
+    by = list(BYSTANDERS) + [(("res",), "d", ""), (("res", "model.yml"), "f", "model-of-the-parent-folder"),
+                             (("res", "result.md"), "f", "report-of-the-parent-folder"), (("res", "run2"), "d", ""),
+                             (("res", "run2", "result.yml"), "f", "another-run")]
+    run = ("res", "run")
+    sib = by + [(run, "d", ""), (run + ("model.yml",), "f", "old-model"), (run + ("notes.txt",), "f", "mine"),
+                (run + ("dataset_1.nc",), "f", "old-data")]
+    yield "absent", by, run + ("result.yml",), None, run
+    yield "absent-given-yml", by, run + ("result.yml",), "yml", run
+    yield "absent-yaml-name", by, run + ("my.yaml",), None, run
+    yield "folder-path-yml", by, run, "yml", run
+    yield "folder-path-folder", by, run, "folder", run
+    yield "emptydir", by + [(run, "d", "")], run + ("result.yml",), None, run
+    yield "siblings", sib, run + ("result.yml",), None, run
+    yield "siblings-folder-path", sib, run, "yml", run
+    yield "siblings-folder-format", sib, run, "folder", run
+    yield "result-exists", sib + [(run + ("result.yml",), "f", "old-result")], run + ("result.yml",), None, run
+    yield "result-exists-folder-path", sib + [(run + ("result.yml",), "f", "old-result")], run, "yml", run
+    yield "history-is-dir", by + [(run + ("parameter_history.csv",), "d", "")], run + ("result.yml",), None, run
+    yield "model-is-dir", by + [(run + ("model.yml",), "d", "")], run + ("result.yml",), None, run
+    yield "report-is-dir", by + [(run + ("result.md",), "d", "")], run + ("result.yml",), None, run
+    yield "result-is-dir", by + [(run + ("result.yml",), "d", "")], run + ("result.yml",), None, run
+    yield "folder-is-file", by + [(("pf",), "f", "iam-a-file")], ("pf", "result.yml"), None, ("pf",)
+    yield "folder-is-file-folder-format", by + [(("pf",), "f", "iam-a-file")], ("pf",), "folder", ("pf",)
+    yield "top-level", by, ("result.yml",), None, ()
+
+
+def stream_result_plugins(ck, scratch):
+    """the real yml / folder result plugins on real results against `runResultPlugin` over the regenerated table:
+    outcome and the complete tree (paths, kinds, which files were (re)written); oracle on the real tree alone"""
+    import glotaran.io as gio
+    from glotaran.io import SavingOptions
+
+    batch = Batch()
+    known = known_formats("project")
+    options = [("default", SavingOptions()), ("no-report", SavingOptions(report=False)),
+               ("minimal", SavingOptions(data_filter=["fitted_data", "residual"], report=False))]
+    n = 0
+    for vtag, res in result_variants():
+        labels = list(res.data)
+        for tag, init, comps, fmt, folder in plugin_cases():
+            for allow in (False, True):
+                for otag, so in options:
+                    if ck.quick and (vtag, otag) not in (("one", "default"), ("three", "no-report"), ("one", "minimal")):
+                        continue
+                    root = scratch.fresh()
+                    try:
+                        build(root, init)
+                        age_files(root)
+                        before = snapshot(root)
+                        kw = {"allow_overwrite": allow, "saving_options": so}
+                        if fmt is not None:
+                            kw["format_name"] = fmt
+                        err = None
+                        with warnings.catch_warnings():
+                            warnings.simplefilter("ignore")
+                            try:
+                                gio.save_result(res, root.joinpath(*comps), **kw)
+                            except Exception as e:  # noqa: BLE001
+                                err = e
+                        after = snapshot(root)
+                        case = {"kind": "result-plugin", "case": tag, "result": vtag, "labels": labels, "target": list(comps),
+                                "format_name": fmt, "allow_overwrite": allow, "saving_options": otag, "observed": exc_name(err)}
+                        n += 1
+                        # ---- oracle: the real tree alone
+                        ck.oracle_evals += 1
+                        oracle_save(ck, case, before, after, err, 0 if isinstance(err, FileExistsError) else 1, comps, allow)
+                        inside = lambda k: k[: len(folder)] == tuple(folder) and len(k) > len(folder)  # noqa: E731
+                        for k, v in before.items():
+                            if v[0] == "f" and not inside(k) and after.get(k) != v:
+                                ck.violation("save-result-destroys-file-outside-folder",
+                                             f"save_result into {'/'.join(folder) or '.'} (allow_overwrite={allow}) changed the existing file "
+                                             f"{'/'.join(k)} outside the result folder", case)
+                        for k, v in after.items():
+                            if k not in before and not inside(k) and not (v[0] == "d" and tuple(folder)[: len(k)] == k):
+                                ck.disagree("result-plugin-outside-folder", f"save_result into {'/'.join(folder) or '.'} created "
+                                            f"{'/'.join(k)} outside the result folder", case)
+                        names_ok = DOCUMENTED_RESULT_FILES | {comps[-1] if comps[-1].endswith((".yml", ".yaml")) else "result.yml"} \
+                            | {f"{x}_parameters.{so.parameter_format}" for x in ("initial", "optimized")} \
+                            | {f"{l}.{so.data_format}" for l in labels}
+                        for k, v in after.items():
+                            if v[0] == "f" and before.get(k) != v and (not inside(k) or len(k) != len(folder) + 1 or k[-1] not in names_ok):
+                                ck.disagree("result-plugin-undocumented-file", f"save_result wrote {'/'.join(k)}, which is not one of the "
+                                            f"documented result files of the folder {'/'.join(folder) or '.'}", case)
+                        # ---- model
+                        def norm(snap):
+                            out = {}
+                            for k, v in snap.items():
+                                out[k] = ("f", b"W", 0) if v[0] == "f" and before.get(k) != v else v
+                            return out
+                        fmt_tok = "none" if fmt is None else enc(fmt)
+                        batch.add(f"fs-reset {dump(before)}", None, case)
+                        batch.add(f"save-result {strs(comps)} {bool_(allow)} {fmt_tok} {strs(known)} {strs(labels)} "
+                                  f"{enc(so.parameter_format)} {enc(so.data_format)} {bool_(so.report)} []",
+                                  f"{exc_name(err)} {dump(norm(after))}", case)
+                        eff = fmt or "yml"
+                        want = sorted(k for k, v in after.items() if v[0] == "f" and before.get(k) != v)
+                        if err is None:
+                            batch.add(f"result-files {enc(eff)} {strs(comps)} {strs(labels)} {enc(so.parameter_format)} "
+                                      f"{enc(so.data_format)} {bool_(so.report)}", lst(strs(k) for k in want), case)
+                        ck.case(("result-plugin", tag, vtag, allow, otag), True)
+                        ck.count("a:stream:result-plugin")
+                        ck.count(f"a:result-plugin-outcome:{exc_name(err)}")
+                        ck.count(f"a:result-plugin-files-written:{min(len(want), 12)}")
+                    finally:
+                        scratch.drop(root)
+    batch.diff(ck, "result-plugin-model-vs-impl")
+    # observation (outside the statement and outside the model's assumption "labels are single path components"):
+    # a dataset label with a path separator leaves the result folder, and the nested save_dataset(allow_overwrite=True)
+    # replaces an existing file there
+    from dataclasses import replace
+
+    res = real_objects()["save_result"]
+    root = scratch.fresh()
+    try:
+        build(root, [(("escaped.nc",), "f", "mine")])
+        hostile = replace(res, data={"dataset_1": res.data["dataset_1"], "../escaped": res.data["dataset_1"].copy()})
+        with warnings.catch_warnings():
+            warnings.simplefilter("ignore")
+            try:
+                gio.save_result(hostile, root / "out" / "result.yml")
+                outcome = "ok"
+            except Exception as e:  # noqa: BLE001
+                outcome = type(e).__name__
+        replaced = (root / "escaped.nc").read_bytes() != b"mine"
+        ck.extra.setdefault("builtin_plugin_observations", {})[
+            f"save_result(out/result.yml, allow_overwrite=False) of a result with the dataset label '../escaped': {outcome}; "
+            f"existing file escaped.nc next to the result folder replaced: {replaced}"] = 1
+        ck.count("a:observation:label-escapes-folder", int(replaced))
+    finally:
+        scratch.drop(root)
+    ck.extra["result_plugin_stream"] = (f"{n} calls of the real save_result with the builtin yml/folder plugins: 18 target situations x "
+                                        "allow_overwrite x saving options x results with one / three dataset labels"
+                                        + (" (subset of option/label combinations in quick)" if ck.quick else ""))
+    ck.sample({"stream": "result-plugin", "case": "siblings", "labels": ["dataset_1", "d.2", "x y"],
+               "compared": "outcome + complete tree (which files were (re)written) vs runResultPlugin over Generated.resultPlugins"})
 
 # ------------------------------------------------------------------------------------------------
 # (a) project-level writers
@@ -728,7 +913,7 @@ def stream_guarded(ck, scratch):
 NAMES5 = ["a", "ab", "a_run", "a_run_b", "a.b"]
 NAMES7 = NAMES5 + ["a_run_0000", "a_b", "a_run_2024_b"]   # the last: a run specifier *inside* the name (seeded C18-1)
 UNIVERSE = NAMES7 + ["a_run_0001", "a_run_b_run_0000", "a.b_run_0000", "a_run_0000_run_0000", "zz", "a_run_00000", "a_run_000",
-                     "_run_0000", "ab_run_0000", "a_run", "a_run_"]
+                     "_run_0000", "ab_run_0000", "a_run", "a_run_", "a_run_9999", "a_run_10000", "a_run_10000_run_0000"]
 
 
 _FAKE_YML = []
@@ -876,8 +1061,19 @@ class RealRegistry:
         raise AssertionError(op)
 
 
+def split_run_specifier(n: str):
+    """(front, digits) when the name ends in `_run_` + four or more ASCII digits, else None — plain string operations"""
+    digits = ""
+    while n and n[-1] in "0123456789":
+        n, digits = n[:-1], n[-1] + digits
+    if len(digits) >= 4 and n.endswith("_run_"):
+        return n[: -len("_run_")], digits
+    return None
+
+
 def has_run_suffix(n: str) -> bool:
-    return re.fullmatch(r".+_run_[0-9]{4}", n) is not None
+    sp = split_run_specifier(n)
+    return sp is not None and sp[0] != ""
 
 
 class RunOracle:
@@ -899,19 +1095,17 @@ class RunOracle:
             # a foreign entry called like a run of some name is outside the statement's histories: it raises the floor of
             # that name's numbers, and the latest-lookups of that name are not judged any more
             self.foreign.add(op[1])
-            m = re.fullmatch(r"(.*)_run_([0-9]{4})", op[1])
-            if m:
-                self.tainted.add(m.group(1))
-                self.seed_numbers[m.group(1)] = max(self.seed_numbers.get(m.group(1), -1), int(m.group(2)))
+            sp = split_run_specifier(op[1])
+            if sp:
+                self.tainted.add(sp[0])
+                self.seed_numbers[sp[0]] = max(self.seed_numbers.get(sp[0], -1), int(sp[1]))
             return
         if op[0] != "opt":
             return
         name = op[1]
         mine = self.runs.setdefault(name, [])
         if not answer.startswith("saved "):
-            beyond = len(mine) + self.seed_numbers.get(name, -1) + 1 >= 10000
-            if not beyond:
-                ck.violation("optimize-result-not-stored", f"storing a run of result {name!r} failed: {answer}", case)
+            ck.violation("optimize-result-not-stored", f"storing a run of result {name!r} failed: {answer}", case)
             return
         folder = core.dec(answer.split(" ", 1)[1])
         m = re.fullmatch(re.escape(name) + r"_run_([0-9]+)", folder)
@@ -944,9 +1138,10 @@ class RunOracle:
                         ck.violation("earlier-run-not-loadable", f"load_result({f!r}) raised {type(e).__name__}: {str(e)[:100]}", case)
         # latest lookups: most recent run of exactly that name
         for rname, rs in self.runs.items():
-            if not rs or has_run_suffix(rname) or rname in self.tainted:
+            if not rs or rname in self.tainted:
                 continue
-            if len(rs) + self.seed_numbers.get(rname, -1) + 1 > 10000:
+            if split_run_specifier(rname) is not None:
+                self.run_suffixed(rname, rs, case)
                 continue
             want_folder, want_payload, _ = rs[-1]
             for label, fn in (("get_latest_result_path", lambda n: real.project.get_latest_result_path(n).name),
@@ -967,15 +1162,58 @@ class RunOracle:
             # a run specifier on the name is stripped by the latest-lookups
             for label, fn, want in (("get_latest_result_path", lambda n: real.project.get_latest_result_path(n).name, want_folder),
                                     ("load_latest_result", lambda n: real.project.load_latest_result(n).payload, want_payload)):
+                for given in {rs[0][0], rs[len(rs) // 2][0], rs[-1][0]}:
+                    try:
+                        with warnings.catch_warnings():
+                            warnings.simplefilter("ignore")
+                            got = fn(given)
+                    except Exception as e:  # noqa: BLE001
+                        got = f"{type(e).__name__}: {str(e)[:80]}"
+                    if got != want:
+                        ck.violation("latest-with-run-specifier", f"{label}({given!r}) gave {got!r}, the most recent run of "
+                                     f"{rname!r} is {want!r}", case)
+
+
+    def run_suffixed(self, rname, rs, case):
+        """a result name r = b_run_<digits>: (1) the statement (most recent run of exactly r) on the real code - it fails,
+        recorded as known finding `latest-run-suffixed-name`; (2) what latest_of_run_suffixed_name_spec says instead,
+        as relations between calls of the real code (no model): the latest-lookups of r are those of b, and
+        get_result_path(r) / load_result(r) take r for the name of a run folder"""
+        ck, real = self.ck, self.real
+        b, _ = split_run_specifier(rname)
+        want_folder, want_payload, _ = rs[-1]
+
+        def outcome(f):
+            with warnings.catch_warnings(record=True) as w:
+                warnings.simplefilter("always")
                 try:
-                    with warnings.catch_warnings():
-                        warnings.simplefilter("ignore")
-                        got = fn(rs[0][0])
+                    r = f()
+                    r = ("ok", r.payload if hasattr(r, "payload") else Path(r).relative_to(real.dir).as_posix())
                 except Exception as e:  # noqa: BLE001
-                    got = f"{type(e).__name__}: {str(e)[:80]}"
-                if got != want:
-                    ck.violation("latest-with-run-specifier", f"{label}({rs[0][0]!r}) gave {got!r}, the most recent run of "
-                                 f"{rname!r} is {want!r}", case)
+                    r = (type(e).__name__, str(e)[:60])
+            return r + (any("missing the run specifier" in str(x.message) for x in w),)
+
+        got = outcome(lambda: real.project.get_latest_result_path(rname))
+        got_l = outcome(lambda: real.project.load_latest_result(rname))
+        ck.count("b:run-suffixed-name:judged")
+        if got != ("ok", want_folder, False) or got_l != ("ok", want_payload, False):
+            ck.violation("latest-run-suffixed-name", f"get_latest_result_path({rname!r}) / load_latest_result gave {got[:2]} / {got_l[:2]}, "
+                         f"the most recent run of that name is {want_folder!r} (result {want_payload})", case)
+        # the spec, on the real code
+        same = [(got, outcome(lambda: real.project.get_latest_result_path(b))),
+                (got_l, outcome(lambda: real.project.load_latest_result(b)))]
+        for x, y in same:
+            if x != y:
+                ck.disagree("run-suffixed-spec", f"latest-lookup of {rname!r} gave {x}, that of {b!r} gave {y} "
+                            "(latest_of_run_suffixed_name_spec says they coincide)", case)
+        if b != "":
+            is_dir = (real.dir / rname).is_dir()
+            for latest in (False, True):
+                g = outcome(lambda: real.project.get_result_path(rname, latest=latest))
+                want = ("ok", rname, False) if is_dir else ("ValueError", f"Result {rname!r} does not exist."[:60], False)
+                if g[0] != want[0] or (g[0] == "ok" and g != want) or g[2]:
+                    ck.disagree("run-suffixed-spec", f"get_result_path({rname!r}, latest={latest}) gave {g}, folder exists: {is_dir} "
+                                "(latest_of_run_suffixed_name_spec: the name is taken for a run folder)", case)
 
 
 def observe_ops(names):
@@ -1000,9 +1238,9 @@ def run_history(ck, scratch, hist, batch, with_oracle=True, light=False, seed_di
                 (real.dir / name).mkdir()
                 (real.dir / name / "result.yml").write_text("0")
                 batch.add(f"reg-mk {enc(name)} run 0", None, case)
-                m = re.fullmatch(r"(.+)_run_([0-9]{4})", name)
-                if m:
-                    initial[m.group(1)] = max(initial.get(m.group(1), -1), int(m.group(2)))
+                sp = split_run_specifier(name)
+                if sp:
+                    initial[sp[0]] = max(initial.get(sp[0], -1), int(sp[1]))
             orc = RunOracle(ck, real, initial, seed_dirs) if with_oracle else None
             done = []
             for op in hist:
@@ -1077,8 +1315,12 @@ def stream_histories(ck, scratch):
             go([tuple(o) for o in c["ops"]], "corpus", seed_dirs=tuple(c.get("seed_dirs", ())))
     for h in CORPUS_BUILTIN:
         go(h, "regression")
-    # the 9999 / 10000 boundary (N2): numbers stay fresh up to 9999, then the name is exhausted
-    go([("opt", "a"), ("opt", "a"), ("opt", "a"), ("opt", "a_run_b")], "boundary", seed_dirs=("a_run_9997", "a_run_b_run_0041"))
+    # the 9999 / 10000 boundary (N2, fixed by run-10000): the numbering continues with five digits, in numeric order
+    go([("opt", "a"), ("opt", "a"), ("opt", "a"), ("opt", "a_run_b"), ("opt", "a"), ("opt", "a")], "boundary",
+       seed_dirs=("a_run_9997", "a_run_b_run_0041"))
+    go([("opt", "a"), ("opt", "a_run_10000"), ("opt", "a"), ("opt", "a_run_10000")], "boundary", seed_dirs=("a_run_9999",))
+    go([("mk", "a_run_00003", "dir"), ("opt", "a"), ("mk", "a_run_100000", "file"), ("opt", "a"), ("opt", "a"),
+        ("mk", "a_run_0100001", "dir"), ("opt", "a")], "boundary", seed_dirs=("a_run_0003",))
     if ck.quick:
         space = list(history_space(NAMES5, 4))
         ck.rng.shuffle(space)
@@ -1092,6 +1334,7 @@ def stream_histories(ck, scratch):
                 else:
                     base = ck.rng.choice(NAMES7)
                     nm = ck.rng.choice([f"{base}_run_{ck.rng.randint(0, 12):04}", f"{base}_run_x", f"{base}_run_00001", base, f"{base}_run_",
+                                        f"{base}_run_{ck.rng.randint(9995, 10003)}", f"{base}_run_{ck.rng.randint(0, 12):05}",
                                         f"{base}.", f".{base}", f"{base}.c", f"{base}_run_0001.bak"])
                     h.append(("mk", nm, ck.rng.choice(["file", "dir"])))
             # a foreign entry may not be created twice
@@ -1174,11 +1417,11 @@ def stream_real_optimize(ck, scratch):
                     batch.add(f"reg-save {enc(name)} {payload}", f"raised {type(err).__name__}", case)
                     continue
                 batch.add(f"reg-save {enc(name)} {payload}", "saved " + (enc(new[0]) if len(new) == 1 else "?" + strs(new)), case)
-                if len(new) != 1 or re.fullmatch(re.escape(name) + r"_run_[0-9]{4}", new[0]) is None:
+                if len(new) != 1 or re.fullmatch(re.escape(name) + r"_run_[0-9]{4,}", new[0]) is None:
                     ck.violation("run-folder-name", f"optimize stored result {name!r} in {new}", c)
                     continue
-                nr = int(new[0][-4:])
-                if stored.get(name) and nr <= int(stored[name][-1][-4:]):
+                nr = int(new[0][len(name) + 5:])
+                if stored.get(name) and nr <= int(stored[name][-1][len(name) + 5:]):
                     ck.violation("run-number-not-increasing", f"run of {name!r} got number {nr} after {stored[name][-1]!r}", c)
                 stored.setdefault(name, []).append(new[0])
                 for f, h in hashes.items():
@@ -1263,6 +1506,13 @@ def check_table(ck):
     if got != want:
         ck.disagree("generated-table", "the compiled SaveFns table differs from what the extractor reads from the source now",
                     {"kind": "table", "driver": got[:600], "extractor": want[:600]})
+    plugins = extract_plugins()
+    got_p = core.lean_driver(PROP, ["plugins"])[0]
+    want_p = ex.proto_plugins(plugins, enc, strs, lst)
+    if got_p != want_p:
+        ck.disagree("generated-plugin-table", "the compiled ResultPlugins table differs from what the extractor reads from the source now",
+                    {"kind": "table", "driver": got_p[:600], "extractor": want_p[:600]})
+    ck.extra["result_plugin_steps"] = {pl["cls"]: len(pl["steps"]) for pl in plugins}
     import glotaran.io as gio
 
     public = sorted(n for n in dir(gio) if n.startswith("save_") and callable(getattr(gio, n)))
@@ -1297,6 +1547,7 @@ def run(ck):
         timed("guarded", stream_guarded, ck, scratch)
         timed("scripted", stream_scripted, ck, scratch)
         timed("builtin", stream_builtin, ck, scratch)
+        timed("result-plugins", stream_result_plugins, ck, scratch)
         timed("real-optimize", stream_real_optimize, ck, scratch)
         ck.extra["phase_seconds"] = phases
     finally:
@@ -1364,6 +1615,8 @@ def replay(ck, case):
                 stream_guarded(ck, scratch)
             elif kind == "builtin-save":
                 stream_builtin(ck, scratch)
+            elif kind == "result-plugin":
+                stream_result_plugins(ck, scratch)
             elif kind == "optimize":
                 stream_real_optimize(ck, scratch)
             else:
